@@ -90,6 +90,7 @@ Print Assumptions C13_first_line.
 
 Theorem C13_second_line_start : spec_ly 113 = 1 /\ dot_of (pos 113) = 0.
 Proof. exact second_line_start. Qed.
+Print Assumptions C13_second_line_start.
 
 (* Non-vacuity: a concrete history — 200 cycles, LCD off at an odd moment, two cycles, LCD on, 70 cycles with
    an LYC write and OAM activity in between — satisfies the hypotheses of C13_on with k = 70, where the
